@@ -48,8 +48,12 @@ def gen_cases(rng, tier, corr, stats):
         s = 1
         msg = common.rnd_bytes(rng, mlen)
         ses = ["X %d %s %s" % (s, v, init)]
+        padded = v in ("xof", "xofa") and rng.random() < 0.25      # pad() between absorb calls (theorem C03_pad): positions on and off a block boundary
         for c in gen.split_data(msg, gen.partition(rng, mlen, 8)):
             ses.append("X %d ABS %s" % (s, hx(c)))
+            if padded and rng.random() < 0.5:
+                ses.append("X %d PAD" % s)
+                stats["ops"]["PAD"] = stats["ops"].get("PAD", 0) + 1
         if rng.random() < 0.15:
             ses.append("X %d DUMP" % s)
         for o in outs:
@@ -116,7 +120,7 @@ def run(res, tier, seed, replay=None):
     res.cov.update({
         "evaluations": sum(p["sessions"] for p in per),
         "distinct_nontrivial": max([p["nontrivial"] for p in per] or [0]),
-        "rule": "object histories init|init_fixed L|init_custom name custom L ; absorb chunks ; squeeze chunks (+ internal state dumps) for "
+        "rule": "object histories init|init_fixed L|init_custom name custom L ; absorb chunks (pad() calls between them in a quarter of the XOF/XOFA histories) ; squeeze chunks (+ internal state dumps) for "
                 "boundary message/output lengths, declared lengths {0,1,31,32,33,64,2^29-1,2^29,2^32-1}, names of 0/1/31/32/33/104 bytes and NULL, "
                 "customisation strings of 0/1/7/8/9/60 bytes; one-shot digests; distinct = distinct session text",
         "samples": corr.lines[:4] + corr.lines[-3:],
